@@ -25,7 +25,12 @@ def check_tx(spec, ctx):
     n = len(T)
     g = spec.get("genome")
     chunk = spec.get("chunk") if g else None
-    parent = (chunk_parent(g, chunk[0], chunk[1]) if chunk else chrom_parent(g)) if g else None
+    cst = spec.get("chunk_strand", "+") if chunk else "+"
+    parent = (chunk_parent(g, chunk[0], chunk[1], strand=cst, idiom=spec.get("chunk_idiom", "api")) if chunk else chrom_parent(g)) if g else None
+    if chunk and cst == "-":
+        ctx.label("minus_strand_chunk")
+    if chunk and spec.get("chunk_idiom") == "docstring":
+        ctx.label("chunk_parent_docstring_idiom")
     tx = mktx(spec, parent)
     if chunk:
         # the same transcript seen through a sequence chunk: every chromosome-coordinate conversion must answer as without it
@@ -197,7 +202,7 @@ def check_tx(spec, ctx):
         ctx.fail("utr3_raises", {"exc": repr(e)[:120], "i": i, "j": j, "n": n})
     if chunk:
         # documented: on a chunk-relative transcript the UTRs are chunk-relative - i.e. the part of each UTR on the chunk
-        sh = lambda ps: [p - chunk[0] for p in ps if chunk[0] <= p < chunk[1]]  # noqa: E731
+        sh = lambda ps: [(p - chunk[0] if cst == "+" else chunk[1] - 1 - p) for p in ps if chunk[0] <= p < chunk[1]]  # noqa: E731
         U5, U3, CC = sh(T[:i]), sh(T[j:]), sh(C)
         if 0 < len(U5) < i or 0 < len(U3) < n - j:
             ctx.nt("chunk_cuts_utr")
@@ -207,12 +212,12 @@ def check_tx(spec, ctx):
         ctx.eq("utr5_positions", rm.loc_positions(utr5) if len(utr5) else [], U5)
         ctx.eq("utr5_len", len(utr5), len(U5))
         if U5:
-            ctx.eq("utr5_strand", rm.loc_strand(utr5), strand)
+            ctx.eq("utr5_strand", rm.loc_strand(utr5), rm.compose(strand, cst))
     if utr3 is not None:
         ctx.eq("utr3_positions", rm.loc_positions(utr3) if len(utr3) else [], U3)
         ctx.eq("utr3_len", len(utr3), len(U3))
         if U3:
-            ctx.eq("utr3_strand", rm.loc_strand(utr3), strand)
+            ctx.eq("utr3_strand", rm.loc_strand(utr3), rm.compose(strand, cst))
     if utr5 is not None and utr3 is not None and not chunk:
         allp = rm.loc_positions(utr5) + rm.loc_positions(tx.cds_location) + rm.loc_positions(utr3)
         # with a skipped base the three parts cover the exons except that base
@@ -225,11 +230,11 @@ def check_tx(spec, ctx):
             ctx.eq("utr_cds_disjoint", len(set(allp)), len(allp))
     if utr5 is not None and utr3 is not None and chunk and g:
         # on the chunk: the UTR pieces spell the corresponding stretches of the chunk sequence
-        cg = g[chunk[0]:chunk[1]]
+        cg = g[chunk[0]:chunk[1]] if cst == "+" else rm.revcomp(g[chunk[0]:chunk[1]])
         if U5:
-            ctx.eq("utr5_sequence_on_chunk", str(utr5.extract_sequence()), rm.seq_image(cg, U5, strand))
+            ctx.eq("utr5_sequence_on_chunk", str(utr5.extract_sequence()), rm.seq_image(cg, U5, rm.compose(strand, cst)))
         if U3:
-            ctx.eq("utr3_sequence_on_chunk", str(utr3.extract_sequence()), rm.seq_image(cg, U3, strand))
+            ctx.eq("utr3_sequence_on_chunk", str(utr3.extract_sequence()), rm.seq_image(cg, U3, rm.compose(strand, cst)))
     # with sequence: the three parts spell the transcript
     if g and not chunk:
         mrna = str(tx.get_transcript_sequence())
@@ -257,6 +262,8 @@ def strat_tx(draw, tier="quick"):
             # seen through a sequence chunk that contains, cuts or misses the transcript
             a = draw(st.integers(0, hi + 1))
             sp["chunk"] = [a, draw(st.integers(a + 1, hi + 2))]
+            sp["chunk_strand"] = draw(st.sampled_from(["+", "+", "-"]))
+            sp["chunk_idiom"] = draw(st.sampled_from(["api", "api", "docstring"]))
     return sp
 
 
